@@ -49,7 +49,7 @@ MANIFEST = {
     "text": "Theorems in lean/Jap/Props/C03.lean prove, from the handler tuples / handler actions / error() / get_loader_exceptions / exit statuses / "
             "issubclass table regenerated from /repo on every run, that every failure a region of the anchored code is designed to raise reaches the "
             "caller of parse_args/parse_object/parse_string/parse_env/parse_path as ArgumentError (exit_on_error false) or exit status 2 (true), on "
-            "every call path of any depth, except for three tagged origins (internal dataclass parser, class-help parser, Type[..] import) that are "
+            "every call path of any depth, except for three tagged origins (internal dataclass parser, class-help parser, get_defaults raising ArgumentError itself) that are "
             "open known findings with refutation witnesses; and that every run of the pipeline model under the hypothesis 'stages raise only what "
             "they are designed to' ends in ok | ArgumentError | exit 0 | exit 2. The hypothesis and the property itself are attacked on the real "
             "code by a structured fuzz of all five methods with stage-boundary attribution of every exception.",
